@@ -112,6 +112,11 @@ pub struct World {
     /// (pool, start index) of tick arrays the program let a hostile client create at a start index that is not a
     /// multiple of 88 x spacing (never on a correct tree); clients then use them for the ticks they contain
     pub rogue_arrays: Vec<(usize, i32)>,
+    /// (signature, detail) of set-up instructions that succeeded but stored something else than they were asked
+    /// to (adaptive fee tiers and the pools / oracles created from them); drained and reported by the C14 monitor
+    pub setup_findings: Vec<(String, String)>,
+    /// how many such comparisons were made since the monitor last looked
+    pub setup_compared: u64,
 }
 
 pub fn floor_div(a: i32, b: i32) -> i32 {
@@ -139,6 +144,8 @@ impl World {
             executed: 0,
             key_prefix: None,
             rogue_arrays: vec![],
+            setup_findings: vec![],
+            setup_compared: 0,
         }
     }
 
@@ -361,6 +368,49 @@ impl World {
         key
     }
 
+    /// Token-2022 mint that carries a TransferHook extension naming NO program (authority set, program id unset): transfers of
+    /// such a mint run no hook and need no extra accounts; the program accepts it once a token badge exists.
+    pub fn add_t22_mint_idle_hook(&mut self, decimals: u8) -> Pubkey {
+        use spl_token_2022::extension::{transfer_hook::TransferHook, BaseStateWithExtensionsMut, ExtensionType, StateWithExtensionsMut};
+        use spl_token_2022::state::Mint;
+        let key = self.new_key();
+        let len = ExtensionType::try_calculate_account_len::<Mint>(&[ExtensionType::TransferHook]).unwrap();
+        let mut d = vec![0u8; len];
+        {
+            let mut st = StateWithExtensionsMut::<Mint>::unpack_uninitialized(&mut d).unwrap();
+            let e = st.init_extension::<TransferHook>(true).unwrap();
+            e.authority = Some(ADMIN).try_into().unwrap();
+            e.program_id = None.try_into().unwrap();
+            st.base = Mint { mint_authority: Some(ADMIN).into(), supply: 0, decimals, is_initialized: true, freeze_authority: None.into() };
+            st.pack_base();
+            st.init_account_type().unwrap();
+        }
+        self.bank.set(key, Acct { lamports: 100_000_000, data: d, owner: TOKEN22, executable: false });
+        self.mints.push(MintInfo { key, program: TOKEN22, decimals, transfer_fee_bps: None });
+        key
+    }
+
+    /// Token badge of `mint` under config `c` (creates the config extension first); false when the program refuses.
+    pub fn add_token_badge(&mut self, c: usize, mint: Pubkey) -> bool {
+        let ext = self.add_config_extension(c);
+        let cfg = self.configs[c].clone();
+        // token badges are a feature the deployment's admin switches on per config
+        let _ = self.exec(b::SetConfigFeatureFlag { whirlpools_config: cfg.key, authority: ADMIN }.ix(b::ConfigFeatureFlag::TokenBadge(true)));
+        let o = self.exec(
+            b::InitializeTokenBadge {
+                whirlpools_config: cfg.key,
+                whirlpools_config_extension: ext,
+                token_badge_authority: cfg.token_badge_authority,
+                token_mint: mint,
+                token_badge: b::pda_token_badge(cfg.key, mint).0,
+                funder: ADMIN,
+                system_program: system_program::ID,
+            }
+            .ix(),
+        );
+        o.ok()
+    }
+
     pub fn mint_info(&self, mint: &Pubkey) -> MintInfo {
         self.mints.iter().find(|m| m.key == *mint).cloned().unwrap_or_else(|| {
             let a = self.bank.get(mint).expect("mint account");
@@ -529,6 +579,18 @@ impl World {
             if !o.ok() {
                 return Err(o);
             }
+            // the tier stores exactly what the instruction named, field by field
+            self.setup_compared += 1;
+            if let Some(t) = self.bank.data(&aft).and_then(codec::AdaptiveFeeTier::decode) {
+                let k = &t.constants;
+                let got = (t.whirlpools_config, t.fee_tier_index, t.tick_spacing, t.initialize_pool_authority, t.delegated_fee_authority, t.default_base_fee_rate, (k.filter_period, k.decay_period, k.reduction_factor, k.adaptive_fee_control_factor, k.max_volatility_accumulator, k.tick_group_size, k.major_swap_threshold_ticks));
+                let want = (cfg.key, fee_tier_index, tick_spacing, if trade_enable_timestamp.is_some() { ADMIN } else { Pubkey::default() }, Pubkey::default(), base_fee_rate, consts);
+                if got != want {
+                    self.setup_findings.push(("c14:tier_stores_other_values:initialize_adaptive_fee_tier".into(), format!("requested (config, index, spacing, pool authority, delegated authority, base fee, (filter, decay, reduction, control, max accumulator, group size, major threshold)) = {want:?}, the tier stores {got:?}")));
+                }
+            } else {
+                self.setup_findings.push(("c14:tier_unreadable:initialize_adaptive_fee_tier".into(), format!("the tier account {aft} does not decode as an AdaptiveFeeTier after a successful initialisation")));
+            }
         }
         let (pool, _) = b::pda_whirlpool(cfg.key, mint_a, mint_b, fee_tier_index);
         let (va, vb) = (self.new_key(), self.new_key());
@@ -557,6 +619,29 @@ impl World {
         );
         if !o.ok() {
             return Err(o);
+        }
+        // the pool and its oracle copy the tier: spacing, base fee, index, all seven constants; the trade-enable time is the one asked for
+        if let (Some(t), Some(orc), Some(pl)) = (self.bank.data(&aft).and_then(codec::AdaptiveFeeTier::decode), self.bank.data(&oracle).and_then(codec::Oracle::decode), self.bank.data(&pool).and_then(codec::Pool::decode)) {
+            let mut bad = vec![];
+            self.setup_compared += 1;
+            if orc.constants != t.constants {
+                bad.push(format!("oracle constants {:?} but the tier holds {:?}", orc.constants, t.constants));
+            }
+            if orc.whirlpool != pool {
+                bad.push(format!("oracle names pool {} instead of {pool}", orc.whirlpool));
+            }
+            if orc.trade_enable_timestamp != trade_enable_timestamp.unwrap_or(0) {
+                bad.push(format!("trade-enable time {} stored for a request of {:?}", orc.trade_enable_timestamp, trade_enable_timestamp));
+            }
+            if pl.tick_spacing != t.tick_spacing || pl.fee_rate != t.default_base_fee_rate || pl.fee_tier_index != t.fee_tier_index {
+                bad.push(format!("pool (spacing, fee rate, index seed) = ({}, {}, {}) but the tier holds ({}, {}, {})", pl.tick_spacing, pl.fee_rate, pl.fee_tier_index, t.tick_spacing, t.default_base_fee_rate, t.fee_tier_index));
+            }
+            if orc.variables != codec::AfVariables::default() {
+                bad.push(format!("a new oracle starts with variables {:?}", orc.variables));
+            }
+            for b_ in bad {
+                self.setup_findings.push(("c14:pool_differs_from_its_tier:initialize_pool_with_adaptive_fee".into(), b_));
+            }
         }
         self.pools.push(PoolInfo {
             key: pool,
